@@ -79,3 +79,4 @@ func vBlobID(b []byte) uint64      { panic("intrinsic") }
 func vFileContent(b *bufferedFile) uint64 { panic("intrinsic") }
 func vFSCorruptFile(path string) bool { panic("intrinsic") }
 func vTimerFor(site string, mode int) { panic("intrinsic") }
+func vLastTimerDuration() time.Duration { panic("intrinsic") }
